@@ -38,6 +38,8 @@ def run(ctx):
     ctx.do(rule_strict_compare)
     ctx.do(rule_clock)
     ctx.do(rule_version_chain)
+    from . import C14 as _C14
+    ctx.do(_C14.rule_version_bases, rule_id="C05.granularity")
     # "strictly newer" compares instants: no re-labelling of time zones on the way (C15.utc clause)
     from . import C15
     ctx.do(C15.rule_no_relabel, rule_id="C05.instants-not-relabelled")
